@@ -175,6 +175,8 @@ class Model:
         s = s.rstrip("\n")
         if s.startswith("ERR"):
             return ("ERR", s)
+        if s == "":
+            return []
         return [[int(t) for t in part.split()] for part in s.split("|")]
 
     def run_batch(self, lines):
